@@ -142,6 +142,14 @@ def run(L, rep, tier, seed):
                 'TCP and UNIX peers' % (2 if tier == 'quick' else 3))
     collect_simple(S, rep, 'C02', 'head-fidelity')
     validate_samples(S, rep, 'head-fidelity')
+    if tier == 'thorough':
+        # E-str / integer / f32 models against the compiled std on every string over a 17-letter alphabet up to length 3
+        import subprocess
+        p = subprocess.run(['/verif/tools/modelcheck/compare.py'], stdout=subprocess.PIPE, stderr=subprocess.STDOUT, text=True)
+        last = p.stdout.strip().split('\n')[-1] if p.stdout.strip() else ''
+        rep.obligation('models-agree-with-compiled-std', 'holds' if p.returncode == 0 else 'inconclusive', detail=last)
+        if p.returncode != 0:
+            rep.inconc('std models disagree with the compiled std: ' + p.stdout[-400:])
 
 
 def model_or_none(data):
